@@ -48,6 +48,10 @@ CLAIMS = {
     text="LiquidFiltersStr defines every string filter as a recursive TLA+ function on sequences of Unicode scalar values (grapheme clusters for truncate) and chains as composition; TLC enumerates the bounded input space, evaluates the documented function for every case and checks the algebraic laws of the property (split/join identity, strip = lstrip o rstrip, truncate bound, slice contiguity, size in characters, capitalize touches only the first character, replace_first is a prefix of replace, default) as invariants; every case is replayed through {{ in | filter: args | __dump }} on the real parser and compared structurally.",
     note="bounded: strings <= 3 (quick) / 4 (thorough) over a 10-character adversarial alphabet, arguments <= 1 / 2; two recorded findings (truncate measures in bytes) are matched by filter name and non-ASCII input shape; two repaired defects (size, slice).",
     tech=TECH_A, ref="DESIGN.md 7 C13"),
+ "C14": dict(
+    text="LiquidFiltersArr specifies sort / sort_natural as an explicit stable insertion sort with the nil-last comparator and, as property layer, permutation + sortedness + stability + idempotence + nil-last, and uniq / compact / concat / map / where / first / last / size / slice / join / reverse by contract; TLC checks the property layer against the implementation-shaped layer on every enumerated array and emits every case for replay on the real filters (structural comparison through a dump filter); random arrays of up to 60 elements in adversarial initial orders and type mixes are evaluated by the real filters and the recorded (input, output) events are validated against the specification's relation with TLC (Trace_Eval).",
+    note="bounded: arrays <= 4 (quick) / 5 (thorough) exhaustively, objects arrays <= 3 / 4; 400 / 4000 random arrays up to length 60; for incomparable elements only a permutation is demanded.",
+    tech=TECH_AB, ref="DESIGN.md 7 C14"),
  "C16": dict(
     text="LiquidFiltersHtml defines escape, escape_once (look-ahead for the five entities), strip_html (four leftmost-shortest removal passes), url_encode (UTF-8 bytes outside [A-Za-z0-9._-] percent-escaped) and url_decode (+ as space, percent-decoding, strict UTF-8 validation) in TLA+; TLC enumerates the bounded input space and checks output safety, unescape-of-escape identity, escape_once idempotence and entity preservation, the url_encode charset, decode-of-encode identity and no-complete-tag-remains on every input; every case is replayed on the real filters and compared.",
     note="bounded: strings <= 4/5 (escape), <= 4 (url), <= 4/6 (strip_html) over the alphabets the property names, plus token-level sequences that reach the script/style/comment passes and near-entities.",
